@@ -109,7 +109,7 @@ Outcome RunScenario(const std::vector<uint8_t>& bytes, uint64_t salt, Stats& st_
     for (unsigned i = 0; i < n_attack; ++i) add_peer(false);
     // optionally one more honest peer that relays by txid (pre-BIP339 software): the reason why txids of failed witness txs are kept out of the reject filter
     int legacy = -1;
-    if (s.chance(110)) {
+    if (s.chance(170)) {
         PeerSpec ps;
         ps.conn = s.boolean() ? ConnectionType::INBOUND : ConnectionType::OUTBOUND_FULL_RELAY;
         ps.wtxidrelay = false;
@@ -236,13 +236,13 @@ Outcome RunScenario(const std::vector<uint8_t>& bytes, uint64_t salt, Stats& st_
             if (net.Disconnected(m)) continue;
             net.SendRaw(m, NetMsgType::TX, SerTx(*C));
             st.note("attacker peer", m, " sends child C"); st.cls("attacker-sends-child"); st.mix(uint64_t(30));
-        } else if (sel < 60) { // honest peer announces G
+        } else if (sel < 56) { // honest peer announces G
             int h = honest[s.index(honest.size())];
             knows[h].insert(G->GetWitnessHash().ToUint256());
             if (has_parent) knows[h].insert(P->GetWitnessHash().ToUint256());
             net.Send(h, NetMsgType::INV, std::vector<CInv>{CInv(MSG_WTX, G->GetWitnessHash().ToUint256())});
             st.note("honest peer", h, " inv G"); st.cls("honest-announces-early"); st.mix(uint64_t(31));
-        } else if (sel < 66 && has_parent) { // honest peer announces the parent
+        } else if (sel < 64 && has_parent) { // honest peer announces the parent
             int h = honest[s.index(honest.size())];
             knows[h].insert(P->GetWitnessHash().ToUint256());
             net.Send(h, NetMsgType::INV, std::vector<CInv>{CInv(MSG_WTX, P->GetWitnessHash().ToUint256())});
@@ -301,7 +301,7 @@ Outcome RunScenario(const std::vector<uint8_t>& bytes, uint64_t salt, Stats& st_
     // the unchanged code then (i) treats txid(G) as already known if the copy is witness-stripped (its wtxid equals the txid) and (ii) forgets every pending
     // txid-keyed request for G when the copy enters the orphanage (ForgetTxHash(txid)). Both are asserted by the probe target c64_stripped_orphan
     // (suspected genuine defect, reported to the coordinator) and excluded here by construction.
-    const unsigned want = s.range<unsigned>(0, 2);
+    const unsigned want = s.pick<unsigned>({2, 0, 1, 2, 1});
     const bool txid_modes_ok = !variant_was_orphan && !g_in_pool_before_closing;
     const bool mode_b = want == 2 && txid_modes_ok && !in_pool(C);
     const bool mode_a2 = want == 1 && txid_modes_ok && legacy >= 0;
